@@ -484,6 +484,7 @@ func (c *checker) judgeOut(w cliWhat, dir string, out []byte, extraRef []string)
 	if fid {
 		r.Count("cli_fidelity_payloads", 1)
 	}
+	r.Eval(1) // every payload obtained from a program and judged is an evaluation of its own
 	r.Count("cli_payloads_judged", 1)
 	r.Count("cli_payloads_judged:"+w.path, 1)
 	r.Count("cli_tabdoc_lines", int64(len(texts)))
